@@ -8,12 +8,22 @@ package main
 
 import (
 	"encoding/json"
+	"fmt"
 	"io"
+	"os"
 
 	"github.com/sirupsen/logrus"
 
 	"verifharness/hx"
 )
+
+// machinery reports a problem of the harness itself (unknown record vocabulary, a concretisation that cannot be
+// built): the process exits 3, which the driver turns into a machinery error - never into a verdict.
+// Panics of the library under test are left to hx.Safely and are verdicts.
+func machinery(msg string) {
+	fmt.Fprintln(os.Stderr, "c13 harness:", msg)
+	os.Exit(3)
+}
 
 func main() {
 	logrus.SetOutput(io.Discard) // VerifyHTTPRequest logs every refusal
